@@ -21,6 +21,10 @@ type Graph struct {
 	G      *cfg.CFG
 	Blocks []*cfg.Block // live blocks
 	preds  map[*cfg.Block][]*cfg.Block
+	// dead holds the edges that can never be taken because the condition
+	// folds to a constant (`if false`, `c && false`, `c || true`); every
+	// reachability query treats them as cut.
+	dead map[Edge]bool
 }
 
 // Point is the program point *at* node I of block B (I == len(B.Nodes) is the
@@ -39,7 +43,7 @@ type Edge struct {
 func (e Edge) To() *cfg.Block { return e.From.Succs[e.Idx] }
 
 func newGraph(f *Func, g *cfg.CFG) *Graph {
-	gr := &Graph{F: f, G: g, preds: map[*cfg.Block][]*cfg.Block{}}
+	gr := &Graph{F: f, G: g, preds: map[*cfg.Block][]*cfg.Block{}, dead: map[Edge]bool{}}
 	for _, b := range g.Blocks {
 		if !b.Live {
 			continue
@@ -47,6 +51,26 @@ func newGraph(f *Func, g *cfg.CFG) *Graph {
 		gr.Blocks = append(gr.Blocks, b)
 		for _, s := range b.Succs {
 			gr.preds[s] = append(gr.preds[s], b)
+		}
+	}
+	info := f.Info()
+	constEnv := func(e ast.Expr) Tri {
+		if v, ok := constBool(info, e); ok {
+			if v {
+				return True
+			}
+			return False
+		}
+		return Unknown
+	}
+	for _, b := range gr.Blocks {
+		if c := Cond(b); c != nil {
+			switch evalCond(c, constEnv) {
+			case True:
+				gr.dead[Edge{b, 1}] = true
+			case False:
+				gr.dead[Edge{b, 0}] = true
+			}
 		}
 	}
 	return gr
@@ -208,7 +232,7 @@ func (g *Graph) Reach(from Point, cut Cut, target func(p Point, n ast.Node) bool
 			}
 		}
 		for k, s := range it.b.Succs {
-			if cut.Edges[Edge{it.b, k}] {
+			if cut.Edges[Edge{it.b, k}] || g.dead[Edge{it.b, k}] {
 				continue
 			}
 			if cut.NoEnter != nil && cut.NoEnter(s) {
@@ -532,7 +556,7 @@ func (g *Graph) ReachAll(from Point, cut Cut, pred func(p Point, n ast.Node) boo
 			}
 		}
 		for k, s := range it.b.Succs {
-			if cut.Edges[Edge{it.b, k}] || seen[s] {
+			if cut.Edges[Edge{it.b, k}] || g.dead[Edge{it.b, k}] || seen[s] {
 				continue
 			}
 			if cut.NoEnter != nil && cut.NoEnter(s) {
